@@ -9,6 +9,7 @@ import (
 func init() {
 	verifRegister("VerifC06_EHandlers", VerifC06_EHandlers)
 	verifRegister("VerifC06_ERethrowOutside", VerifC06_ERethrowOutside)
+	verifRegister("VerifC06_KEmptyBody", VerifC06_KEmptyBody)
 	verifRegister("VerifC06_KIsPanic", VerifC06_KIsPanic)
 	verifRegister("VerifC06_EHandlerKinds", VerifC06_EHandlerKinds)
 }
@@ -267,6 +268,33 @@ func VerifC06_EHandlers() {
 		vAssert(c6Norm(res.String()) == wr.val, "the value is the reference's value")
 		vCover("value")
 	}
+	cleanRuntime(env, "user")
+	vCover("end")
+}
+
+// A handling form with NO body forms has nothing that can signal: its value is the value of an empty
+// sequence, (), exactly like (progn) -- whatever its binding list says -- and it raises nothing.
+// Binding lists, wrappers and the datum of a later, ordinary error are chosen by the solver.
+func VerifC06_KEmptyBody() {
+	env := newEnv(nil)
+	d := vndInt("d")
+	env.PutGlobal(lisp.Symbol("d"), lisp.Int(d))
+	binds := []string{"()", "((condition (lambda (c &rest a) 'h)))", "((c1 (lambda (c &rest a) 'h)) (condition (lambda (c &rest a) 'g)))", "((internal-panic (lambda (c &rest a) 'p)))"}
+	b := binds[vConcInt(vndChoice("binds", len(binds)))]
+	wraps := []string{"%s", "(progn %s)", "(ignore-errors %s)", "(handler-bind ((condition (lambda (c &rest a) (list 'outer c)))) %s)", "(list 1 %s 2)", "(let ((v %s)) v)"}
+	w := wraps[vConcInt(vndChoice("wrap", len(wraps)))]
+	form := strings.Replace(w, "%s", "(handler-bind "+b+")", 1)
+	ref := strings.Replace(w, "%s", "(progn)", 1)
+	r := env.LoadString("p", form)
+	want := env.LoadString("p", ref)
+	vObserve("form", form)
+	vObserve("got", outcome(r))
+	vAssert(outcome(r) == outcome(want), "a handler-bind without body forms evaluates like an empty sequence; (progn) gives "+outcome(want))
+	ri := env.LoadString("p", strings.Replace(w, "%s", "(ignore-errors)", 1))
+	vAssert(outcome(ri) == outcome(want), "and so does an ignore-errors without body forms: "+outcome(ri))
+	// the runtime goes on normally: a later error reaches a later handler with its datum
+	rl := env.LoadString("p", "(handler-bind ((c1 (lambda (c &rest a) (car a)))) (error 'c1 d))")
+	vAssert(rl.Type == lisp.LInt && rl.Int == d, "later handling is unaffected: "+outcome(rl))
 	cleanRuntime(env, "user")
 	vCover("end")
 }
